@@ -22,7 +22,7 @@ Section FP.
   Notation RM := (RM cache).
   Notation rstate := (rstate cache).
   Notation rfn := (resolve_forwarding_notimeout cache cache_get cache_insert_all zs o fa).
-  Notation fq := (forward_query cache cache_insert_all o fa).
+  Notation fq := (forward_query cache cache_insert_all zs o fa).
   Notation rlocal := (local cache cache_get zs).
   Notation rret := (ret cache).
   Notation rbind := (rbind cache).
@@ -31,15 +31,15 @@ Section FP.
   Definition fwd_cont (f : nat) (stack : list question) (q : question) (l : option lresult) : RM rres :=
     match l with
     | Some (LDone r) => rret (ROk r)
-    | Some (LPartial rrs) => fq rrs q
-    | Some (LDelegation _ _ _) => fq [] q
+    | Some (LPartial rrs) => fq (rfn f) stack rrs q
+    | Some (LDelegation _ _ _) => fq (rfn f) stack [] q
     | Some (LCname rrs cq) =>
       rbind (rfn f (stack ++ [q]) cq) (fun r =>
         match r with
         | ROk resolved => rret (ROk (NonAuthoritative (rrs ++ resolved_rrs resolved) (resolved_soa_rr resolved)))
         | RErr _ => rret (RErr (EDeadEnd cq))
         end)
-    | None => fq [] q
+    | None => fq (rfn f) stack [] q
     end.
 
   Lemma rfn_S f stack q :
@@ -51,30 +51,42 @@ Section FP.
 
   (* ---------- forward_query ---------- *)
 
-  Lemma fq_fine (Ho : oracle_bytes_ok o) combined q st w : fst (fq combined q st) = Abort w -> w = ATimeout.
-  Proof.
-    unfold forward_query, RecursiveModel.rbind, lift_t, insert_all, ret.
-    pose proof (query_nameserver_fine o fa q true (snd st) Ho) as Hq.
-    destruct (query_nameserver o fa q true (snd st)) as [[om|w1] ts].
-    - destruct om as [response|]; discriminate.
-    - cbn [fst] in *. intro E. inversion E; subst. apply Hq. reflexivity.
-  Qed.
+  (* the continuation when the forwarder's answer leads into a locally authoritative name:
+     the rest of the chain is resolved by the forwarding resolver itself, the question pushed *)
+  Definition fq_nested (rec : list question -> question -> RM rres) (stack : list question)
+             (combined : list rr) (q : question) (prefix : list rr) (name : dname) : RM rres :=
+    rbind (rec (stack ++ [q]) (mkq name (q_type q) (q_class q))) (fun r =>
+      match r with
+      | ROk resolved => rret (ROk (NonAuthoritative (prioritising_merge combined prefix ++ resolved_rrs resolved)
+                                                   (resolved_soa_rr resolved)))
+      | RErr _ => rret (RErr (EDeadEnd (mkq name (q_type q) (q_class q))))
+      end).
 
   (* what forward_query does, case by case *)
-  Lemma fq_cases combined q st :
+  Lemma fq_cases rec stack combined q st :
     (exists resp ts, query_nameserver o fa q true (snd st) = (Val (Some resp), ts)
-        /\ fq combined q st = (Val (ROk (NonAuthoritative (prioritising_merge combined (m_answers resp))
+        /\ (forall r, In r (m_answers resp) -> owned_elsewhere zs q r = false)
+        /\ fq rec stack combined q st = (Val (ROk (NonAuthoritative (prioritising_merge combined (m_answers resp))
                                                         (get_nxdomain_nodata_soa q resp 0))),
                                (cache_insert_all (fst st) (m_answers resp), ts)))
+    \/ (exists resp ts i r, query_nameserver o fa q true (snd st) = (Val (Some resp), ts)
+        /\ nth_error (m_answers resp) i = Some r /\ owned_elsewhere zs q r = true
+        /\ (forall x, In x (firstn i (m_answers resp)) -> owned_elsewhere zs q x = false)
+        /\ fq rec stack combined q st
+           = fq_nested rec stack combined q (firstn i (m_answers resp)) (rr_name r)
+                       (cache_insert_all (fst st) (firstn i (m_answers resp)), ts))
     \/ (exists ts, query_nameserver o fa q true (snd st) = (Val None, ts)
-        /\ fq combined q st = (Val (RErr (EDeadEnd q)), (fst st, ts)))
+        /\ fq rec stack combined q st = (Val (RErr (EDeadEnd q)), (fst st, ts)))
     \/ (exists w ts, query_nameserver o fa q true (snd st) = (Abort w, ts)
-        /\ fq combined q st = (Abort w, (fst st, ts))).
+        /\ fq rec stack combined q st = (Abort w, (fst st, ts))).
   Proof.
-    unfold forward_query, RecursiveModel.rbind, lift_t, insert_all, ret.
+    unfold fq_nested, forward_query, RecursiveModel.rbind, lift_t, insert_all, ret.
     destruct (query_nameserver o fa q true (snd st)) as [[om|w1] ts].
-    - destruct om as [resp|]; [left; exists resp, ts; auto|right; left; exists ts; auto].
-    - right; right. exists w1, ts. auto.
+    - destruct om as [resp|]; [|right; right; left; exists ts; auto].
+      destruct (cut_rrs_ok zs q (m_answers resp)) as (c & -> & Hc). destruct Hc as [Hn|i r Hn Ho Hf].
+      + left. exists resp, ts. split; [reflexivity|]. split; [exact Hn|]. reflexivity.
+      + right; left. exists resp, ts, i, r. repeat (split; [first [reflexivity|assumption]|]). reflexivity.
+    - right; right; right. exists w1, ts. auto.
   Qed.
 
   (* ---------- C08 forwarding_terminates: fuel 34 always suffices ---------- *)
@@ -90,8 +102,43 @@ Section FP.
       { split; [rewrite rfn_S, El; discriminate|]. intros f' _. rewrite !rfn_S, El. reflexivity. }
       destruct (is_duplicate_question stack q) eqn:Ed.
       { split; [rewrite rfn_S, El, Ed; discriminate|]. intros f' _. rewrite !rfn_S, El, Ed. reflexivity. }
-      assert (Hfq : forall combined, fst (fq combined q st) <> Abort AFuel).
-      { intros combined E. apply (fq_fine Ho) in E. discriminate. }
+      pose proof (stack_le_32 stack q Hlen El) as Hlen'.
+      assert (Hf' : (33 <= f + length (stack ++ [q]))%nat) by (rewrite app_length; cbn [length]; lia).
+      assert (Hfq : forall combined,
+                 fst (fq (rfn f) stack combined q st) <> Abort AFuel
+                 /\ forall f', (f <= f')%nat -> fq (rfn f') stack combined q st = fq (rfn f) stack combined q st).
+      { intros combined.
+        assert (Hqn : forall w ts, query_nameserver o fa q true (snd st) = (Abort w, ts) -> w <> AFuel).
+        { intros w ts E Hw. pose proof (query_nameserver_fine o fa q true (snd st) Ho w) as Hq. rewrite E in Hq.
+          specialize (Hq eq_refl). congruence. }
+        destruct (fq_cases (rfn f) stack combined q st) as [(resp & ts & Eq & Hn & E)|[(resp & ts & i & r & Eq & Hn & Ho' & Hp & E)|[(ts & Eq & E)|(w & ts & Eq & E)]]].
+        - split; [rewrite E; discriminate|]. intros f' _.
+          destruct (fq_cases (rfn f') stack combined q st) as [(resp' & ts' & Eq' & _ & E')|[(resp' & ts' & i' & r' & Eq' & Hn' & Ho2 & _ & E')|[(ts' & Eq' & E')|(w' & ts' & Eq' & E')]]];
+            rewrite Eq in Eq'; inversion Eq'; subst.
+          + rewrite E, E'. reflexivity.
+          + exfalso. apply nth_error_In in Hn'. rewrite (Hn _ Hn') in Ho2. discriminate.
+        - destruct (IH (stack ++ [q]) (mkq (rr_name r) (q_type q) (q_class q))
+                       (cache_insert_all (fst st) (firstn i (m_answers resp)), ts) Hlen' Hf') as [Hn1 Hs1].
+          split.
+          + rewrite E. unfold fq_nested, RecursiveModel.rbind.
+            destruct (rfn f (stack ++ [q]) _ _) as [[[res|e]|w] st1]; try discriminate. cbn [fst] in *. congruence.
+          + intros f' Hle. rewrite E.
+            unfold forward_query, RecursiveModel.rbind at 1, lift_t. rewrite Eq.
+            unfold cut_rrs.
+            assert (Epos : position (owned_elsewhere zs q) (m_answers resp) = Some i).
+            { clear -Hn Ho' Hp. revert i Hn Hp. induction (m_answers resp) as [|a l IHl]; intros i Hn Hp; [destruct i; discriminate|].
+              cbn [position]. destruct i as [|i].
+              - cbn in Hn. inversion Hn; subst. rewrite Ho'. reflexivity.
+              - cbn [firstn nth_error] in *. rewrite (Hp a (or_introl eq_refl)).
+                rewrite (IHl i Hn); [reflexivity|]. intros x Hx. apply Hp. right. exact Hx. }
+            rewrite Epos, Hn. unfold fq_nested, RecursiveModel.rbind, insert_all. cbn [fst snd].
+            rewrite (Hs1 f' Hle). reflexivity.
+        - split; [rewrite E; discriminate|]. intros f' _.
+          destruct (fq_cases (rfn f') stack combined q st) as [(resp' & ts' & Eq' & _ & E')|[(resp' & ts' & i' & r' & Eq' & _ & _ & _ & E')|[(ts' & Eq' & E')|(w' & ts' & Eq' & E')]]];
+            rewrite Eq in Eq'; inversion Eq'; subst. rewrite E, E'. reflexivity.
+        - split; [rewrite E; cbn [fst]; intro Hw; inversion Hw; subst; eapply Hqn; [exact Eq|reflexivity]|]. intros f' _.
+          destruct (fq_cases (rfn f') stack combined q st) as [(resp' & ts' & Eq' & _ & E')|[(resp' & ts' & i' & r' & Eq' & _ & _ & _ & E')|[(ts' & Eq' & E')|(w' & ts' & Eq' & E')]]];
+            rewrite Eq in Eq'; inversion Eq'; subst. rewrite E, E'. reflexivity. }
       destruct (rlocal_cases cache cache_get zs stack q st Hlen) as [[ol [E _]]|[E _]].
       2:{ assert (Hsame : forall f', rfn (S f') stack q st = (Abort APanic, st)).
           { intro f'. rewrite rfn_S, El, Ed. unfold RecursiveModel.rbind. rewrite E. reflexivity. }
@@ -101,16 +148,14 @@ Section FP.
       rewrite Hsame.
       destruct ol as [[r|rrs|rrs s d|rrs cq]|]; cbn [fwd_cont].
       - split; [discriminate|]. intros f' _. rewrite Hsame. reflexivity.
-      - split; [apply Hfq|]. intros f' _. rewrite Hsame. reflexivity.
-      - split; [apply Hfq|]. intros f' _. rewrite Hsame. reflexivity.
-      - pose proof (stack_le_32 stack q Hlen El) as Hlen'.
-        destruct (IH (stack ++ [q]) cq st Hlen') as [Hn Hs].
-        { rewrite app_length. cbn [length]. lia. }
+      - split; [apply Hfq|]. intros f' Hf2. rewrite Hsame. cbn [fwd_cont]. apply Hfq, Hf2.
+      - split; [apply Hfq|]. intros f' Hf2. rewrite Hsame. cbn [fwd_cont]. apply Hfq, Hf2.
+      - destruct (IH (stack ++ [q]) cq st Hlen' Hf') as [Hn Hs].
         split.
         + unfold RecursiveModel.rbind. destruct (rfn f (stack ++ [q]) cq st) as [[[res|e]|w] st1]; try discriminate.
           cbn [fst] in *. congruence.
-        + intros f' Hf'. rewrite Hsame. cbn [fwd_cont]. unfold RecursiveModel.rbind. rewrite (Hs f' Hf'). reflexivity.
-      - split; [apply Hfq|]. intros f' _. rewrite Hsame. reflexivity. }
+        + intros f' Hf2. rewrite Hsame. cbn [fwd_cont]. unfold RecursiveModel.rbind. rewrite (Hs f' Hf2). reflexivity.
+      - split; [apply Hfq|]. intros f' Hf2. rewrite Hsame. cbn [fwd_cont]. apply Hfq, Hf2. }
     destruct Hgoal as [H1 H2]. split; [exact H1|].
     intros f' Hf'. destruct f' as [|f']; [lia|]. apply H2. lia.
   Qed.
@@ -149,10 +194,55 @@ Section FP.
       ((exists rrs, rlocal_res cache cache_get zs stack q st = Ok (LPartial rrs))
        \/ (exists rrs s d, rlocal_res cache cache_get zs stack q st = Ok (LDelegation rrs s d))
        \/ (exists e, rlocal_res cache cache_get zs stack q st = Err e)) -> QOK q.
-    Hypothesis H_fq : forall combined q st, Inv st -> QOK q -> Forall (G st) combined ->
-      post cache Inv R Ab (good_rres cache G) st (fq combined q st).
+    (* the exchange with the forwarder, and caching a prefix of the answer section of its reply
+       (all of it unless the answer leads into a locally authoritative name) *)
+    Hypothesis H_fwd : forall q st r ts, Inv st -> QOK q ->
+      query_nameserver o fa q true (snd st) = (r, ts) ->
+      Inv (fst st, ts) /\ R st (fst st, ts) /\ (forall w, r = Abort w -> Ab w)
+      /\ (forall resp, r = Val (Some resp) ->
+            Forall (G (fst st, ts)) (m_answers resp)
+            /\ Forall (G (fst st, ts)) (opt_list (get_nxdomain_nodata_soa q resp 0))
+            /\ forall i, (forall x, In x (firstn i (m_answers resp)) -> owned_elsewhere zs q x = false) ->
+                         Inv (cache_insert_all (fst st) (firstn i (m_answers resp)), ts)
+                         /\ R (fst st, ts) (cache_insert_all (fst st) (firstn i (m_answers resp)), ts)).
 
     Notation fpost := (post cache Inv R Ab).
+
+    Lemma post_fq rec stack combined q st :
+      (forall stack' q' st', Inv st' -> fpost (good_rres cache G) st' (rec stack' q' st')) ->
+      Inv st -> QOK q -> Forall (G st) combined -> fpost (good_rres cache G) st (fq rec stack combined q st).
+    Proof.
+      intros Hrec HI Hq Hc.
+      destruct (query_nameserver o fa q true (snd st)) as [r0 ts0] eqn:Eq0.
+      destruct (H_fwd q st r0 ts0 HI Hq Eq0) as (I1 & R1 & Hab & Hresp).
+      destruct (fq_cases rec stack combined q st) as [(resp & ts & Eq & Hn & E)|[(resp & ts & i & r & Eq & Hn & Ho' & Hp & E)|[(ts & Eq & E)|(w & ts & Eq & E)]]];
+        rewrite Eq in Eq0; inversion Eq0; subst r0 ts0; rewrite E.
+      - destruct (Hresp resp eq_refl) as (Ga & Gs & Hins).
+        destruct (Hins (length (m_answers resp))) as [I2 R2]. { intros x Hx. apply Hn. eapply firstn_incl, Hx. }
+        rewrite firstn_all in I2, R2.
+        unfold post. cbn [fst snd]. split; [exact I2|]. split; [eapply R_trans; eassumption|].
+        split; cbn [resolved_rrs resolved_soa_rr].
+        + apply Forall_merge.
+          * eapply Forall_impl; [|exact Hc]. intros x Hx. eapply G_mono; [|exact Hx]. eapply R_trans; eassumption.
+          * eapply Forall_impl; [|exact Ga]. intros x Hx. eapply G_mono; eassumption.
+        + eapply Forall_impl; [|exact Gs]. intros x Hx. eapply G_mono; eassumption.
+      - destruct (Hresp resp eq_refl) as (Ga & Gs & Hins).
+        destruct (Hins i Hp) as [I2 R2].
+        assert (R02 : R st (cache_insert_all (fst st) (firstn i (m_answers resp)), ts)) by (eapply R_trans; eassumption).
+        assert (P2 : fpost (good_rres cache G) (cache_insert_all (fst st) (firstn i (m_answers resp)), ts)
+                           (fq_nested rec stack combined q (firstn i (m_answers resp)) (rr_name r)
+                                      (cache_insert_all (fst st) (firstn i (m_answers resp)), ts))).
+        { unfold fq_nested. eapply post_bind; [exact R_trans|apply Hrec, I2|].
+          intros r1 st3 I3 R3 V3. destruct r1 as [res|e]; (apply post_ret; [exact R_refl|exact I3|]); [|exact I].
+          destruct V3 as [V3 V4]. split; cbn [resolved_rrs resolved_soa_rr]; [|exact V4].
+          apply Forall_app. split; [|exact V3]. apply Forall_merge.
+          - eapply Forall_impl; [|exact Hc]. intros x Hx. eapply G_mono; [|exact Hx]. eapply R_trans; eassumption.
+          - apply Forall_forall. intros x Hx. apply firstn_incl in Hx. eapply Forall_forall in Ga; [|exact Hx].
+            eapply G_mono; [|exact Ga]. eapply R_trans; eassumption. }
+        destruct P2 as (I3 & R3 & V3). split; [exact I3|]. split; [eapply R_trans; eassumption|exact V3].
+      - unfold post. cbn [fst snd]. split; [exact I1|]. split; [exact R1|exact I].
+      - unfold post. cbn [fst snd]. split; [exact I1|]. split; [exact R1|]. apply Hab. reflexivity.
+    Qed.
 
     Theorem fwd_generic : forall f stack q st, Inv st -> fpost (good_rres cache G) st (rfn f stack q st).
     Proof.
@@ -165,16 +255,16 @@ Section FP.
         intros ol st1 I1 R1 [-> Hl].
         destruct ol as [[r|rrs|rrs s d|rrs cq]|].
         + apply post_ret; [exact R_refl|exact I1|]. apply (H_local _ _ _ _ I1 Hl).
-        + apply H_fq; [exact I1| |apply (H_local _ _ _ _ I1 Hl)].
+        + apply post_fq; [exact IH|exact I1| |apply (H_local _ _ _ _ I1 Hl)].
           eapply H_q; try eassumption. left. eexists; exact Hl.
-        + apply H_fq; [exact I1| |constructor].
+        + apply post_fq; [exact IH|exact I1| |constructor].
           eapply H_q; try eassumption. right; left. do 3 eexists; exact Hl.
         + eapply post_bind; [exact R_trans|apply IH, I1|].
           intros r st2 I2 R2 V2. destruct r as [res|e]; (apply post_ret; [exact R_refl|exact I2|]); [|exact I].
           destruct V2 as [V2 V3]. split; cbn [resolved_rrs resolved_soa_rr]; [|exact V3].
           apply Forall_app. split; [|exact V2].
           eapply Forall_impl; [|exact (proj1 (H_local _ _ _ _ I1 Hl))]. intros x. apply G_mono, R2.
-        + apply H_fq; [exact I1| |constructor].
+        + apply post_fq; [exact IH|exact I1| |constructor].
           eapply H_q; try eassumption. right; right. exact Hl.
     Qed.
   End Generic.
@@ -190,10 +280,10 @@ Section FP.
       - discriminate.
       - intros. split; apply Forall_forall; auto.
       - intros stack0 q0 st0 _ H. exfalso. apply Hz. eapply resolve_local_panic, H.
-      - intros combined q0 st0 _ _ _. unfold post. split; [exact I|]. split; [exact I|].
-        destruct (fst (fq combined q0 st0)) as [[res|e]|w] eqn:E; cbn [good_rres]; auto.
-        + split; apply Forall_forall; auto.
-        + apply (fq_fine Ho) in E. subst w. discriminate. }
+      - intros q0 st0 r ts _ _ E. split; [exact I|]. split; [exact I|]. split.
+        + intros w -> Hw. subst w.
+          pose proof (query_nameserver_fine o fa q0 true (snd st0) Ho APanic) as Hq. rewrite E in Hq. discriminate (Hq eq_refl).
+        + intros resp _. split; [apply Forall_forall; auto|]. split; [apply Forall_forall; auto|]. auto. }
     destruct Hp as (_ & _ & Hp). destruct (fst (rfn f stack q st)) as [x|w]; [discriminate|].
     intro E. inversion E; subst. apply Hp. reflexivity.
   Qed.
@@ -205,15 +295,28 @@ Section FP.
     destruct (rfn f [] q st) as [[[x|e]|[| |]] st']; cbn [finish fst] in *; try discriminate. congruence.
   Qed.
 
-  (* ---------- the log (C18 forward_only_forwarder, C01 log_names_not_owned) ---------- *)
-  Lemma fq_log combined q st :
-    exists new, ts_rlog (snd (snd (fq combined q st))) = new ++ ts_rlog (snd st)
-                /\ Forall (fun x => x_addr x = fa /\ x_question x = q /\ x_rd x = true) new.
+  (* ---------- what is cached (C01: the cut at a locally authoritative name) ----------
+     the cache is changed by nothing but insert_all of a prefix of the answer section of a reply
+     of the forwarder in which no record is owned elsewhere (its owner is the question name of
+     that exchange, or no authoritative local zone encloses it): every property of caches that
+     such inserts preserve is preserved by a whole resolution *)
+  Theorem rfn_cached_cut (P : cache -> Prop) :
+    (forall c q ts resp ts' i, P c -> query_nameserver o fa q true ts = (Val (Some resp), ts') ->
+        (forall r, In r (firstn i (m_answers resp)) -> owned_elsewhere zs q r = false) ->
+        P (cache_insert_all c (firstn i (m_answers resp)))) ->
+    forall f stack q st, P (fst st) -> P (fst (snd (rfn f stack q st))).
   Proof.
-    destruct (fq_cases combined q st) as [[resp [ts [Eq E]]]|[[ts [Eq E]]|[w [ts [Eq E]]]]];
-      rewrite E; cbn [snd]; exact (query_nameserver_dest _ _ _ _ _ _ _ Eq).
+    intros HP f stack q st H0.
+    assert (Hp : post cache (fun st => P (fst st)) (fun _ _ => True) (fun _ => True) (good_rres cache (fun _ _ => True)) st (rfn f stack q st)).
+    { apply (fwd_generic (fun st => P (fst st)) (fun _ _ => True) (fun _ _ => True) (fun _ => True) (fun _ => True)); auto.
+      - intros. split; apply Forall_forall; auto.
+      - intros q0 st0 r ts H1 _ E. cbn [fst]. split; [exact H1|]. split; [exact I|]. split; [auto|].
+        intros resp ->. split; [apply Forall_forall; auto|]. split; [apply Forall_forall; auto|].
+        intros i Hi. split; [|exact I]. eapply HP; eassumption. }
+    exact (proj1 Hp).
   Qed.
 
+  (* ---------- the log (C18 forward_only_forwarder, C01 log_names_not_owned) ---------- *)
   Theorem rfn_log (PQ : question -> Prop) :
     (forall stack q c,
       at_recursion_limit stack = false -> is_duplicate_question stack q = false ->
@@ -231,12 +334,15 @@ Section FP.
     { apply (fwd_generic LInv (fun _ _ => True) (fun _ _ => True) (fun _ => True) PQ); auto.
       - intros. split; apply Forall_forall; auto.
       - intros stack0 q0 st0 _ Hl Hd Hc. eapply HPQ; eassumption.
-      - intros combined q0 st0 [new0 [E0 F0]] Hq _. unfold post.
-        destruct (fq_log combined q0 st0) as [new [E F]].
-        split; [|split; [exact I|]].
-        + exists (new ++ new0). rewrite E, E0, app_assoc. split; [reflexivity|]. apply Forall_app. split; [|exact F0].
-          eapply Forall_impl; [|exact F]. intros x (h1 & h2 & h3). rewrite h2. auto.
-        + destruct (fst (fq combined q0 st0)) as [[res|e]|w]; cbn [good_rres]; auto. split; apply Forall_forall; auto.
+      - intros q0 st0 r ts [new0 [E0 F0]] Hq E.
+        pose proof (query_nameserver_dest _ _ _ _ _ _ _ E) as [new [El F]].
+        assert (HL : forall c : cache, LInv (c, ts)).
+        { intro c. exists (new ++ new0). cbn [snd]. rewrite El, E0, app_assoc. split; [reflexivity|].
+          apply Forall_app. split; [|exact F0].
+          eapply Forall_impl; [|exact F]. intros x (h1 & h2 & h3). rewrite h2. auto. }
+        split; [apply HL|]. split; [exact I|]. split; [auto|].
+        intros resp _. split; [apply Forall_forall; auto|]. split; [apply Forall_forall; auto|].
+        intros i _. split; [apply HL|exact I].
       - exists []. split; [reflexivity|constructor]. }
     exact (proj1 Hp).
   Qed.
@@ -279,8 +385,11 @@ Section FP.
   Proof.
     destruct f as [|f]; [discriminate|]. rewrite rfn_S.
     destruct (at_recursion_limit stack); [discriminate|]. destruct (is_duplicate_question stack q); [discriminate|].
-    assert (Hfq : forall combined, fq combined q st <> (Val (ROk (AuthoritativeNameError s)), st')).
-    { intros combined. destruct (fq_cases combined q st) as [[resp [ts [_ E]]]|[[ts [_ E]]|[w [ts [_ E]]]]]; rewrite E; discriminate. }
+    assert (Hfq : forall combined, fq (rfn f) stack combined q st <> (Val (ROk (AuthoritativeNameError s)), st')).
+    { intros combined.
+      destruct (fq_cases (rfn f) stack combined q st) as [(resp & ts & _ & _ & E)|[(resp & ts & i & r & _ & _ & _ & _ & E)|[(ts & _ & E)|(w & ts & _ & E)]]];
+        rewrite E; try discriminate.
+      unfold fq_nested, RecursiveModel.rbind, ret. destruct (rfn f _ _ _) as [[[res|e]|w] st1]; discriminate. }
     unfold RecursiveModel.rbind at 1. unfold local at 1.
     destruct (resolve_local zs (cache_get (fst st)) LOCAL_FUEL stack q) as [l|e| |]; try discriminate.
     - destruct l as [r|rrs|rrs so d|rrs cq]; cbn [fwd_cont].
@@ -339,28 +448,24 @@ Section FP.
           + intros name qt z zr r Hz Hin. exists r. split; [apply rr_sim_refl|]. left. left. exists name, qt, z, zr. auto.
           + intros name qt z zr s Hz Hs. exists s. split; [apply rr_sim_refl|]. left. right. exists name, qt, z, zr. auto.
           + intros n t r Hr. destruct (CL_get _ _ _ _ Hr) as [r' [H1 H2]]. eapply fprov_sim; [exact H2|]. apply Hc, H1.
-        - intros combined q0 st0 Hc _ Hcomb. unfold post.
-          destruct (fq_cases combined q0 st0) as [[resp [ts [Eq E]]]|[[ts [Eq E]]|[w [ts [Eq E]]]]]; rewrite E; unfold fprov_inv; cbn [fst snd];
-            pose proof (query_nameserver_dest _ _ _ _ _ _ _ Eq) as [new [El _]].
-          + destruct (query_nameserver_logged _ _ _ _ _ _ _ Eq) as [new' [e [El' [Hin [(h1 & h2 & h3 & h4 & h5) [Hm _]]]]]].
-            assert (Hans : forall r, In r (m_answers resp) \/ allowed_soa q0 0 resp r -> fprov (ts_rlog ts) r).
-            { intros r Hr. exists r. split; [apply rr_sim_refl|]. right; right. exists e, resp.
-              split; [rewrite El'; apply in_or_app; left; exact Hin|]. split; [exact h5|]. split; [exact h1|]. split; [exact h4|].
-              rewrite h2, h3. split; [exact Hm|exact Hr]. }
-            split; [|split; [exists new; exact El|]].
-            * intros r Hr. destruct (CL_insert _ _ _ Hr) as [H|[r' [H1 H2]]].
-              -- rewrite El. apply fprov_mono, Hc, H.
-              -- eapply fprov_sim; [exact H2|]. apply Hans. left. exact H1.
-            * split; cbn [resolved_rrs resolved_soa_rr].
-              -- apply Forall_merge.
-                 ++ eapply Forall_impl; [|exact Hcomb]. intros x Hx. cbv beta in *. cbn [snd]. rewrite El. apply fprov_mono, Hx.
-                 ++ apply Forall_forall. intros x Hx. cbv beta. cbn [snd]. apply Hans. left. exact Hx.
-              -- destruct (get_nxdomain_nodata_soa q0 resp 0) as [s|] eqn:Es; [|constructor].
-                 constructor; [|constructor]. cbv beta. cbn [snd]. apply Hans. right. apply soa_sound. exact Es.
-          + split; [|split; [exists new; exact El|exact I]].
-            intros r Hr. rewrite El. apply fprov_mono, Hc, Hr.
-          + split; [|split; [exists new; exact El|exact I]].
-            intros r Hr. rewrite El. apply fprov_mono, Hc, Hr. }
+        - intros q0 st0 r ts Hc _ Eq.
+          pose proof (query_nameserver_dest _ _ _ _ _ _ _ Eq) as [new [El _]].
+          assert (Hold : forall x, cache_content (fst st0) x -> fprov (ts_rlog ts) x).
+          { intros x Hx. rewrite El. apply fprov_mono, Hc, Hx. }
+          split; [exact Hold|]. split; [exists new; exact El|]. split; [auto|].
+          intros resp ->.
+          destruct (query_nameserver_logged _ _ _ _ _ _ _ Eq) as [new' [e [El' [Hin [(h1 & h2 & h3 & h4 & h5) [Hm _]]]]]].
+          assert (Hans : forall x, In x (m_answers resp) \/ allowed_soa q0 0 resp x -> fprov (ts_rlog ts) x).
+          { intros x Hr. exists x. split; [apply rr_sim_refl|]. right; right. exists e, resp.
+            split; [rewrite El'; apply in_or_app; left; exact Hin|]. split; [exact h5|]. split; [exact h1|]. split; [exact h4|].
+            rewrite h2, h3. split; [exact Hm|exact Hr]. }
+          split; [|split].
+          + apply Forall_forall. intros x Hx. cbv beta. cbn [snd]. apply Hans. left. exact Hx.
+          + destruct (get_nxdomain_nodata_soa q0 resp 0) as [s0|] eqn:Es; [|constructor].
+            constructor; [|constructor]. cbv beta. cbn [snd]. apply Hans. right. apply soa_sound. exact Es.
+          + intros i _. split; [|exists []; reflexivity].
+            intros x Hx. cbn [fst snd] in *. destruct (CL_insert _ _ _ Hx) as [H|[r' [H1 H2]]]; [apply Hold, H|].
+            eapply fprov_sim; [exact H2|]. apply Hans. left. eapply firstn_incl, H1. }
       destruct Hp as (H1 & _ & H3). split; [exact H1|]. intros res E. rewrite E in H3. apply Forall_app. exact H3.
     Qed.
   End Provenance.
@@ -385,9 +490,21 @@ Section FP.
       induction f as [|f IH]; intros stack q st r st' Hq1 Hq2; [discriminate|]. rewrite rfn_S.
       destruct (at_recursion_limit stack); [unfold ret; intro H; inversion H; exact I|].
       destruct (is_duplicate_question stack q); [unfold ret; intro H; inversion H; exact I|].
-      assert (Hfq : fq [] q st = (Val r, st') -> fchain_res q r).
-      { destruct (fq_cases [] q st) as [[resp [ts [Eq E]]]|[[ts [Eq E]]|[w [ts [Eq E]]]]]; rewrite E; intro H; inversion H; subst; [|exact I].
-        cbn [fchain_res resolved_rrs]. rewrite merge_nil_l. eapply Hfw, Eq. }
+      assert (Hfq : fq (rfn f) stack [] q st = (Val r, st') -> fchain_res q r).
+      { destruct (fq_cases (rfn f) stack [] q st) as [(resp & ts & Eq & _ & E)|[(resp & ts & i & r0 & Eq & Hn & Ho' & Hp & E)|[(ts & Eq & E)|(w & ts & Eq & E)]]];
+          rewrite E.
+        3: intro H; inversion H; subst; exact I.
+        3: discriminate.
+        - intro H; inversion H; subst. cbn [fchain_res resolved_rrs]. rewrite merge_nil_l. eapply Hfw, Eq.
+        - (* the answer is cut: the prefix is the chain from the question name to the owner of the
+             first record cut, the rest is a resolution starting there *)
+          destruct (Hfw _ _ _ _ Eq) as (cn & fin & last & Ea & Hcf & Hfin).
+          assert (Hch : chain_from (q_name q) (firstn i (m_answers resp)) = Some (rr_name r0)).
+          { rewrite Ea in *. eapply cut_chain; try eassumption. eapply Forall_impl; [|exact Hfin]. cbn beta. tauto. }
+          unfold fq_nested, RecursiveModel.rbind, ret. rewrite merge_nil_l.
+          destruct (rfn f (stack ++ [q]) _ _) as [[[res|e]|w] st1] eqn:En; try discriminate; intro H; inversion H; subst; [|exact I].
+          cbn [fchain_res resolved_rrs]. eapply chain_shape_app; [exact Hch|].
+          exact (IH _ (mkq (rr_name r0) (q_type q) (q_class q)) _ _ _ Hq1 Hq2 En). }
       unfold RecursiveModel.rbind at 1. unfold local at 1.
       destruct (resolve_local zs (cache_get (fst st)) LOCAL_FUEL stack q) as [l|e| |] eqn:El; try discriminate; [|exact Hfq].
       destruct l as [res|rrs|rrs so d|rrs cq]; cbn [fwd_cont].
@@ -411,6 +528,13 @@ Section FP.
     exists new, ts_rlog (snd (snd (rf_top f q st))) = new ++ ts_rlog (snd st)
                 /\ Forall (fun e => x_addr e = fa /\ x_rd e = true) new.
   Proof. unfold resolve_forwarding. rewrite finish_snd. apply rfn_forward_only_forwarder. Qed.
+
+  Theorem forwarding_cached_cut (P : cache -> Prop) :
+    (forall c q ts resp ts' i, P c -> query_nameserver o fa q true ts = (Val (Some resp), ts') ->
+        (forall r, In r (firstn i (m_answers resp)) -> owned_elsewhere zs q r = false) ->
+        P (cache_insert_all c (firstn i (m_answers resp)))) ->
+    forall f q st, P (fst st) -> P (fst (snd (rf_top f q st))).
+  Proof. intros HP f q st H. unfold resolve_forwarding. rewrite finish_snd. apply rfn_cached_cut; assumption. Qed.
 
   Theorem forwarding_log_names_not_owned f q st :
     exists new, ts_rlog (snd (snd (rf_top f q st))) = new ++ ts_rlog (snd st)
